@@ -463,13 +463,16 @@ pub fn with<R>(f: impl FnOnce(&mut World) -> R) -> R {
     })
 }
 
-/// Drop everything parked in the trash, as crate code (waker drops run the crate's vtable).
-pub fn empty_trash() {
+/// Drop everything parked in the trash, one waker at a time, as crate code (waker drops run the
+/// crate's vtable). The ones not yet dropped stay in the world's books, so that a premature
+/// release of their block is seen. Returns the panic payload if a drop unwound (fatal probe).
+pub fn empty_trash() -> Result<(), Box<dyn std::any::Any + Send>> {
     loop {
-        let t = with(|w| std::mem::take(&mut w.trash));
-        if t.is_empty() {
-            break;
+        let t = with(|w| w.trash.pop());
+        let Some(t) = t else { return Ok(()) };
+        let r = std::panic::catch_unwind(std::panic::AssertUnwindSafe(|| crate::flags::in_crate(|| drop(t))));
+        if let Err(p) = r {
+            return Err(p);
         }
-        crate::flags::in_crate(|| drop(t));
     }
 }
